@@ -137,12 +137,12 @@ func firstLoadOf(a *ssa.Alloc) ssa.Value {
 type c12ctx struct {
 	e *Engine
 	// TA
-	optTA                        *ssa.Global
-	fPinCPUTA, fPinMemTA         *types.Var
-	cpuPreserve, memPreserve     *types.Const
-	grantGetContainer            []*types.Func
-	grantCPUType, grantMemType   []*types.Func
-	fGrantContainer              *types.Var
+	optTA                      *ssa.Global
+	fPinCPUTA, fPinMemTA       *types.Var
+	cpuPreserve, memPreserve   *types.Const
+	grantGetContainer          []*types.Func
+	grantCPUType, grantMemType []*types.Func
+	fGrantContainer            *types.Var
 	// BL
 	fBpoptions, fPinCPUBL, fPinMemBL, fDefPinMem *types.Var
 	mPreserveCpu, mPreserveMem                   *types.Func
@@ -659,11 +659,13 @@ func (c *c12ctx) isGrantFromUpdateLoop(g ssa.Value) bool {
 
 // checkTAPreservedUnmovable decides the structural chain that replaces a
 // local memory-preserve guard in the topology-aware zone-update loops:
-//   (a) getMemOffer asks libmem for the pool's *full* memory set when the request is memoryPreserve,
-//   (b) every caller hands getMemOffer the root pool for such a request,
-//   (c) libmem moves requests only after expand() found new nodes,
-//   (d) the topology-aware policy installs no custom expansion,
-//   (e) a memoryPreserve request never gets a cold-start period.
+//
+//	(a) getMemOffer asks libmem for the pool's *full* memory set when the request is memoryPreserve,
+//	(b) every caller hands getMemOffer the root pool for such a request,
+//	(c) libmem moves requests only after expand() found new nodes,
+//	(d) the topology-aware policy installs no custom expansion,
+//	(e) a memoryPreserve request never gets a cold-start period.
+//
 // The remaining value-level premise (the root pool's memory set is every node
 // with memory, so nothing is left to expand to) is listed as an assumption; an
 // attempt to demonstrate a preserved container being re-told in this policy
